@@ -52,6 +52,37 @@ fn main() {
                 o.flush().unwrap();
             }
         }
+        Some("warnings") => {
+            // C07: the diagnostics the real parser emits for the projects given on stdin (one directory per line)
+            use leptos_i18n_parser::parse_locales::{parse_locales, warning::Warning};
+            use std::io::BufRead;
+            for line in std::io::stdin().lock().lines() {
+                let line = line.unwrap();
+                let dir = line.trim();
+                if dir.is_empty() {
+                    continue;
+                }
+                let d = dir.to_string();
+                let r = std::panic::catch_unwind(move || parse_locales(false, Some(std::path::PathBuf::from(d))));
+                let out = match r {
+                    Err(_) => serde_json::json!({"dir": dir, "status": "panic"}),
+                    Ok(Err(e)) => serde_json::json!({"dir": dir, "status": "error", "error": e.to_string()}),
+                    Ok(Ok((_keys, warnings, _paths))) => {
+                        let ws: Vec<serde_json::Value> = warnings
+                            .into_inner()
+                            .into_iter()
+                            .map(|w| match w {
+                                Warning::MissingKey { locale, key_path } => serde_json::json!({"kind": "missing", "locale": locale.name.to_string(), "path": key_path.to_string()}),
+                                Warning::SurplusKey { locale, key_path } => serde_json::json!({"kind": "surplus", "locale": locale.name.to_string(), "path": key_path.to_string()}),
+                                other => serde_json::json!({"kind": "other", "text": other.to_string()}),
+                            })
+                            .collect();
+                        serde_json::json!({"dir": dir, "status": "ok", "warnings": ws})
+                    }
+                };
+                println!("{}", out);
+            }
+        }
         Some("cfg") => {
             // native replay for C19: the real ConfigFile::new on a directory holding a Cargo.toml
             use leptos_i18n_parser::parse_locales::cfg_file::ConfigFile;
